@@ -433,8 +433,15 @@ Record cinv (i : list tok) (cs : list mcall) (ig : list spelling) : Prop := mkci
 
 (* ... the output buffer has no T_EOA/T_EOR, and one T_BOA (on the input for a moment, then in the output buffer)
    per call that waits for the expansion of an argument *)
+Definition no_boa_but_head (i : list tok) : Prop := cb (match i with TBoa :: r => r | _ => i end) = 0.
 Definition inv (s : state) : Prop :=
-  cinv (inp s) (calls s) (ign s) /\ cleano (out s) /\ cb (inp s) + cb (out s) = cA (calls s).
+  cinv (inp s) (calls s) (ign s) /\ cleano (out s) /\ cb (inp s) + cb (out s) = cA (calls s) /\
+  no_boa_but_head (inp s).
+
+Lemma nbh_tail : forall t r, no_boa_but_head (t :: r) -> cb r = 0.
+Proof. intros t r H; unfold no_boa_but_head in H. destruct t; try exact H; unfold cb in *; cbn in H; try lia; try exact H. Qed.
+Lemma nbh_zero : forall i, cb i = 0 -> no_boa_but_head i.
+Proof. intros i H; unfold no_boa_but_head. destruct i as [|t r]; [exact H|]. destruct t; try exact H. unfold cb in H; cbn in H; discriminate. Qed.
 
 Lemma cinv_nmo_cons : forall t r cs ig, nmo t = true -> cinv (t :: r) cs ig -> cinv r cs ig.
 Proof. intros t r cs ig Ht [H1 H2 H3 H4 H5]; constructor; try assumption. rewrite <- H1. symmetry; apply markers_nmo_cons; assumption. Qed.
@@ -564,16 +571,16 @@ Proof.
 Qed.
 
 Lemma run_repl_inv : forall q r out0 mc cs ig s',
-  cinv r cs ig -> mc_clean mc -> cleano out0 -> ~ In (mc_name mc) ig -> cb r + cb out0 = cA cs ->
+  cinv r cs ig -> mc_clean mc -> cleano out0 -> ~ In (mc_name mc) ig -> cb r + cb out0 = cA cs -> cb r = 0 ->
   run_repl q r out0 mc cs ig = Next s' -> inv s'.
 Proof.
-  intros q r out0 mc cs ig s' [H1 H2 H3 H4 H5] [Hb [Ha Hr]] Ho Hn Hcnt E. unfold run_repl in E.
+  intros q r out0 mc cs ig s' [H1 H2 H3 H4 H5] [Hb [Ha Hr]] Ho Hn Hcnt Hz E. unfold run_repl in E.
   pose proof (proc_repl_ok (q_plm_ws q) (mc_params mc) (mc_rest mc) (mc_prev mc) None (mc_args mc) (mc_buf mc) Hr Ha Hb) as Hp.
   destruct (proc_repl _ _ _ _ _ _) as [args buf|i prev rest args buf];
     [inversion Hp as [? ? Hca Hcb|]|inversion Hp as [|? ? ? ? ? Hca Hcb Hcr Hpn]]; subst.
   - destruct (do_concat _ buf) as [l|] eqn:D; [|discriminate]. inversion E; subst. clear E.
     pose proof (do_concat_clean _ _ _ Hcb D) as Hl.
-    split; [|split; [exact Ho|]]; cbn [inp out calls ign].
+    split; [|split; [exact Ho|split]]; cbn [inp out calls ign].
     + constructor.
       * rewrite markers_app, (markers_clean _ Hl). cbn. rewrite H1. reflexivity.
       * rewrite names_R_cons_R by reflexivity. reflexivity.
@@ -581,10 +588,12 @@ Proof.
       * cbn. split; [discriminate|assumption].
       * constructor; [|assumption]. repeat split; cbn; try assumption; try reflexivity.
     + rewrite cb_app, (cb_clean _ Hl). rewrite cA_cons_R by reflexivity. cbn. exact Hcnt.
+    + apply nbh_zero. rewrite cb_app, (cb_clean _ Hl). exact Hz.
   - inversion E; subst. clear E.
     assert (Hph : in_rescan (mkmc (mc_name mc) (mc_params mc) prev rest args buf) = false).
     { unfold in_rescan; cbn. destruct prev; [congruence|reflexivity]. }
-    split; [|split; [exact Ho|]]; cbn [inp out calls ign].
+    split; [|split; [exact Ho|split]]; cbn [inp out calls ign].
+    3:{ unfold no_boa_but_head. rewrite cb_app, (cb_clean _ (nth_cleans _ i Hca)). exact Hz. }
     + constructor.
       * cbn. rewrite markers_app, (markers_clean _ (nth_cleans _ i Hca)). cbn. rewrite H1, Hph. reflexivity.
       * rewrite names_R_cons_A by exact Hph. reflexivity.
@@ -613,19 +622,21 @@ Qed.
 Lemma step_inv : forall q d s, table_clean d -> inv s ->
   match step q d s with
   | Next s' => inv s'
-  | Bad w => w <> 2 /\ w <> 4 /\ w <> 5 /\ w <> 12
+  | Bad w => w <> 2 /\ w <> 3 /\ w <> 4 /\ w <> 5 /\ w <> 12
   | Done => True
   end.
 Proof.
-  intros q d [i o cs ig n] Ht [Hc [Ho Hcnt]]. cbn [inp out calls ign] in *. unfold step; cbn [inp out calls ign nl].
+  intros q d [i o cs ig n] Ht [Hc [Ho [Hcnt Hj]]]. cbn [inp out calls ign] in *. unfold step; cbn [inp out calls ign nl].
   destruct i as [|t r]; [exact I|].
   destruct (n && is_punct sharp t); [repeat split; discriminate|].
+  pose proof (nbh_tail _ _ Hj) as Hz.
   assert (Hout : forall t' n', nmo t' = true -> cb r + cb (t' :: o) = cb (t :: r) + cb o ->
                                cinv (t' :: r) cs ig -> inv (out_tok (mkst (t :: r) o cs ig n) r t' n')).
-  { intros t' n' Hn He Hc'. split; [|split]; unfold out_tok; cbn [inp out calls ign].
+  { intros t' n' Hn He Hc'. split; [|split; [|split]]; unfold out_tok; cbn [inp out calls ign].
     - eapply cinv_nmo_cons; eassumption.
     - apply cleano_cons; split; assumption.
-    - rewrite He. exact Hcnt. }
+    - rewrite He. exact Hcnt.
+    - apply nbh_zero; exact Hz. }
   assert (Hmove : cb r + cb (t :: o) = cb (t :: r) + cb o).
   { unfold cb; cbn [filter]. destruct (is_boa t); cbn [length]; lia. }
   destruct t; try (apply Hout; [reflexivity|apply Hmove|exact Hc]).
@@ -634,8 +645,8 @@ Proof.
     destruct painted; [apply Hout; [reflexivity|apply Hmove|exact Hc]|].
     destruct (d s) as [m|] eqn:Ed; [|apply Hout; [reflexivity|apply Hmove|exact Hc]].
     destruct (ignored ig s) eqn:Ei.
-    { split; [|split]; unfold out_tok; cbn [inp out calls ign];
-        [eapply cinv_nm_cons; [|exact Hc]; reflexivity|apply cleano_cons; split; [reflexivity|assumption]|].
+    { split; [|split; [|split]]; unfold out_tok; cbn [inp out calls ign];
+        [eapply cinv_nm_cons; [|exact Hc]; reflexivity|apply cleano_cons; split; [reflexivity|assumption]| |apply nbh_zero; exact Hz].
       rewrite cb_nm_cons by reflexivity. exact Hcnt'. }
     assert (Hni : ~ In s ig) by (intros Hi; apply ignored_In in Hi; congruence).
     apply cinv_nm_cons in Hc; [|reflexivity].
@@ -644,11 +655,12 @@ Proof.
       assert (Hnc : inv (mkst (match ws1 with Some w => w :: i1 | None => i1 end) (TIdent false s :: o) cs1 ig1 false)).
       { assert (Hw : forall w, ws1 = Some w -> nm w = true).
         { eapply (skip_ws_nm _ _ _ _ _ _ _ _ (fun w (Hs : None = Some w) => ltac:(discriminate)) E). }
-        split; [|split]; cbn [inp out calls ign].
+        split; [|split; [|split]]; cbn [inp out calls ign].
         - destruct ws1 as [w|]; [apply cinv_nm_cons'; [apply Hw; reflexivity|assumption]|assumption].
         - apply cleano_cons; split; [reflexivity|assumption].
         - rewrite (cb_nm_cons (TIdent false s)) by reflexivity. rewrite Ha1, <- Hcnt', <- Hb1.
-          destruct ws1 as [w|]; [rewrite cb_nm_cons by (apply Hw; reflexivity)|]; reflexivity. }
+          destruct ws1 as [w|]; [rewrite cb_nm_cons by (apply Hw; reflexivity)|]; reflexivity.
+        - apply nbh_zero. destruct ws1 as [w|]; [rewrite cb_nm_cons by (apply Hw; reflexivity)|]; congruence. }
       destruct i1 as [|t1 i1]; cbn [tl]; [exact Hnc|].
       destruct (is_punct lparen t1) eqn:Ep; [|exact Hnc]. clear Hnc.
       assert (Hn1 : nm t1 = true) by (destruct t1; cbn in *; congruence).
@@ -660,9 +672,10 @@ Proof.
       destruct Hf as [Hc2 [Hi2 [Ha [Hb2 Ha2]]]].
       destruct (run_repl q rest o (mkmc s ps [] (m_body m) a []) cs2 ig2) as [|s'|w] eqn:Er.
       * exact I.
-      * eapply run_repl_inv; [exact Hc2| |exact Ho| | |exact Er].
+      * eapply run_repl_inv; [exact Hc2| |exact Ho| | | |exact Er].
         -- repeat split; cbn; try assumption; try reflexivity; try exact (Ht _ _ Ed).
         -- cbn. intros Hi. apply Hni. auto.
+        -- congruence.
         -- congruence.
       * unfold run_repl in Er.
         destruct (proc_repl _ _ _ _ _ _); [destruct (do_concat _); [discriminate|]|discriminate].
@@ -670,7 +683,7 @@ Proof.
     + destruct (do_concat _ (add_tokens [] (m_body m))) as [l|] eqn:D; [|repeat split; discriminate].
       assert (Hl : clean l).
       { eapply do_concat_clean; [|exact D]. apply add_tokens_clean; [reflexivity|exact (Ht _ _ Ed)]. }
-      destruct Hc as [H1 H2 H3 H4 H5]. split; [|split; [exact Ho|]]; cbn [inp out calls ign].
+      destruct Hc as [H1 H2 H3 H4 H5]. split; [|split; [exact Ho|split]]; cbn [inp out calls ign].
       * constructor.
         -- rewrite markers_app, (markers_clean _ Hl). cbn. rewrite H1. reflexivity.
         -- rewrite names_R_cons_R by reflexivity. cbn [app mc_name]. rewrite H2. reflexivity.
@@ -678,28 +691,36 @@ Proof.
         -- cbn. split; [discriminate|assumption].
         -- constructor; [|assumption]. repeat split; cbn; try reflexivity; constructor.
       * rewrite cb_app, (cb_clean _ Hl). rewrite cA_cons_R by reflexivity. cbn. exact Hcnt'.
+      * apply nbh_zero. rewrite cb_app, (cb_clean _ Hl). exact Hz.
   - (* TEoa *)
     destruct Hc as [H1 H2 H3 H4 H5]. cbn in H1. destruct cs as [|mc cs]; [discriminate|].
     cbn in H1. inversion H1 as [[Hm Hr]]. symmetry in Hm.
     rewrite (cA_cons_A mc cs Hm) in Hcnt. change (cb (TEoa :: r)) with (cb r) in Hcnt.
-    destruct (split_boa o []) as [[a o0]|] eqn:Es; [|repeat split; discriminate].
+    destruct (split_boa o []) as [[a o0]|] eqn:Es.
+    2:{ (* impossible: the T_BOA of the waiting call is in the output buffer *)
+        exfalso. assert (Hno : forall x acc, split_boa x acc = None -> cb x = 0).
+        { induction x as [|y x IHx]; intros acc Hx; [reflexivity|].
+          destruct y; cbn [split_boa] in Hx; try discriminate; unfold cb; cbn [filter is_boa]; apply (IHx _ Hx). }
+        rewrite (Hno _ _ Es), Hz in Hcnt. discriminate. }
     destruct (split_boa_clean o [] a o0 Ho (eq_refl : clean []) Es) as [Ha [Ho0 Hcb]].
     inversion H5 as [|? ? [Hb [Hargs Hrest]] H5']; subst.
     rewrite names_R_cons_A in H3 |- * by exact Hm.
     destruct (run_repl q r o0 _ cs (names_R cs ++ ig0)) as [|s'|w] eqn:Er.
     + exact I.
-    + eapply run_repl_inv; [| | | | |exact Er].
+    + eapply run_repl_inv; [| | | | | |exact Er].
       * constructor; [exact Hr|reflexivity|exact H3|exact (proj2 H4)|exact H5'].
       * repeat split; cbn; try assumption; apply add_tokens_clean; assumption.
       * exact Ho0.
       * cbn. exact (proj1 H4 Hm).
       * lia.
+      * exact Hz.
     + unfold run_repl in Er.
       destruct (proc_repl _ _ _ _ _ _); [destruct (do_concat _); [discriminate|]|discriminate].
       inversion Er; subst. repeat split; discriminate.
   - (* TEor *)
     destruct (cinv_pop _ _ _ Hc) as [cs1 [ig1 [E [Hc1 [_ Ha1]]]]]. rewrite E.
-    split; [assumption|split; [assumption|]]. cbn [inp out calls]. change (cb (TEor :: r)) with (cb r) in Hcnt. congruence.
+    split; [assumption|split; [assumption|split]]; cbn [inp out calls];
+      [change (cb (TEor :: r)) with (cb r) in Hcnt; congruence|apply nbh_zero; exact Hz].
 Qed.
 
 End Inv.
@@ -711,9 +732,10 @@ Inductive reach (q : quirks) (d : defs) : state -> Prop :=
 
 Lemma init_inv : forall input, clean input -> inv [] (init input).
 Proof.
-  intros input H; split; [|split; [reflexivity|]]; cbn [init inp out calls ign].
+  intros input H; split; [|split; [reflexivity|split]]; cbn [init inp out calls ign].
   - constructor; cbn; try constructor. apply markers_clean; assumption.
   - rewrite (cb_clean _ H). reflexivity.
+  - apply nbh_zero, cb_clean, H.
 Qed.
 
 Lemma reach_inv : forall q d s, table_clean d -> reach q d s -> inv [] s.
@@ -807,7 +829,7 @@ Lemma painting_discipline_lemma : forall q d s names, table_clean d -> (forall n
   NoDup (ign s) /\ ign s = names_R (calls s) /\ length (ign s) <= length names /\
   markers (inp s) = map in_rescan (calls s).
 Proof.
-  intros q d s names Ht Hn Hr. destruct (reach_inv q d s Ht Hr) as [[H1 H2 H3 H4 H5] [Ho Hcnt]]. rewrite app_nil_r in H2.
+  intros q d s names Ht Hn Hr. destruct (reach_inv q d s Ht Hr) as [[H1 H2 H3 H4 H5] [Ho [Hcnt Hj]]]. rewrite app_nil_r in H2.
   repeat split; try assumption.
   apply NoDup_incl_length; [assumption|]. intros x Hx. apply Hn. rewrite H2 in Hx.
   destruct (names_R_incl _ _ Hx) as [mc [Hi E]]. pose proof (reach_in_table q d s Hr) as Hd.
@@ -815,7 +837,7 @@ Proof.
 Qed.
 
 Lemma no_stack_underflow_lemma : forall q d s w, table_clean d -> reach q d s -> step q d s = Bad w ->
-  w <> 2 /\ w <> 4 /\ w <> 5 /\ w <> 12.
+  w <> 2 /\ w <> 3 /\ w <> 4 /\ w <> 5 /\ w <> 12.
 Proof. intros q d s w Ht Hr E. pose proof (step_inv [] q d s Ht (reach_inv q d s Ht Hr)) as H. rewrite E in H. exact H. Qed.
 
 (* a name whose flag is set is not expanded but painted, and a painted identifier stays as it is, for ever *)
@@ -1036,9 +1058,10 @@ Qed.
 
 Lemma iso_inv : forall arg ig, clean arg -> NoDup ig -> inv ig (mkst arg [] [] ig false).
 Proof.
-  intros arg ig Ha Hn. split; [|split; [reflexivity|]]; cbn [inp out calls ign].
+  intros arg ig Ha Hn. split; [|split; [reflexivity|split]]; cbn [inp out calls ign].
   - constructor; cbn; try constructor; [apply markers_clean; assumption|assumption].
   - rewrite (cb_clean _ Ha). reflexivity.
+  - apply nbh_zero, cb_clean, Ha.
 Qed.
 
 Lemma cb_zero_notin : forall l, cb l = 0 -> ~ In TBoa l.
@@ -1049,7 +1072,7 @@ Qed.
 
 Lemma done_complete : forall ig0 q d s, inv ig0 s -> step q d s = Done -> calls s = [] /\ ~ In TBoa (out s).
 Proof.
-  intros ig0 q d s [[H1 _ _ _ _] [_ Hc]] E. pose proof (step_done_inp q d s E) as Hi. rewrite Hi in *. cbn in H1, Hc.
+  intros ig0 q d s [[H1 _ _ _ _] [_ [Hc _]]] E. pose proof (step_done_inp q d s E) as Hi. rewrite Hi in *. cbn in H1, Hc.
   assert (Hcs : calls s = []) by (destruct (calls s); [reflexivity|discriminate]).
   split; [exact Hcs|]. rewrite Hcs in Hc. cbn in Hc. apply cb_zero_notin; exact Hc.
 Qed.
